@@ -172,7 +172,7 @@ func checkC04(c *Ctx) {
 		if cl, ok := n.(*ast.CompositeLit); ok {
 			if tv, ok := info.Types[cl]; ok && typeStr(tv.Type) == "ysgo.DialogueElement" {
 				if v := litField(cl, "Options"); v != nil {
-					if id := identOf(v); id != nil && info.Uses[id] == sliceObj && cl.Pos() > loop.End() {
+					if id := identOf(v); id != nil && aliasOf(info, x, id, sliceObj, 0) && cl.Pos() > loop.End() {
 						okRet = true
 					}
 				}
@@ -927,3 +927,23 @@ func c04RenderLoop(c *Ctx, m *runnerModel, render *Func, loop *ast.RangeStmt, su
 	c.ob("C04.R3", render.Name+suffix+"/parsed-text", w.Pos(render.Decl.Pos()), okParse, map[bool]string{true: "the markup parser receives exactly the builder's content", false: "the markup parser receives " + got + ", not the builder's content as written element by element (text could be substituted or rewritten after concatenation)"}[okParse])
 }
 
+
+// aliasOf: the identifier denotes obj, or a local assigned exactly once from (an alias of) obj.
+func aliasOf(info *types.Info, x *expander, id *ast.Ident, obj types.Object, depth int) bool {
+	o := info.Uses[id]
+	if o == obj {
+		return true
+	}
+	v, ok := o.(*types.Var)
+	if !ok || depth > 4 || v.IsField() {
+		return false
+	}
+	rhs, idx, _, ok := x.def(v)
+	if !ok || rhs == nil || idx >= 0 {
+		return false
+	}
+	if rid := identOf(rhs); rid != nil {
+		return aliasOf(info, x, rid, obj, depth+1)
+	}
+	return false
+}
